@@ -43,7 +43,8 @@ def gen_case(rng):
   for _ in range(ncalls):
     reg = rng.choice(regs)
     tgt = rng.choice(scopes) if rng.random() < 0.8 else G.rand_scope(rng)
-    body.insert(rng.randint(len(body) // 2, len(body)), G.gen_call(rng, reg, G.gen_enter(rng, tgt, 0.03)))
+    body.insert(rng.randint(len(body) // 2, len(body)),
+                G.gen_call(rng, reg, G.gen_enter(rng, tgt, 0.03), w_required=rng.choice([0.0, 0.0, 0.0, 0.3])))
     if rng.random() < 0.3:
       body.append({'op': 'getb', 'sel': reg['_selector'], 'scope': tgt, 'inherit': rng.random() < 0.7})
   ops += body
